@@ -243,6 +243,15 @@ def store(route, obj, shape, signed, n_word, n_frac, **cfg):
         for c in (hi + 3, lo - 3):
             x.set_val(c if shape == () else np.full(shape, c, dtype=object), raw=True)
         warm(x)
+    elif signed and shape != () and 3 <= n_word <= 60 and (n_word + n_frac + len(shape)) % 4 == 1:
+        # (content-determined) a destination that was re-formatted before: born unsigned with a shorter word and the same fraction
+        # length, brought to its format by resize (keywords or a format string); what is stored into it afterwards does not care
+        x = Fxp(np.zeros(shape, dtype=int), False, n_word - 2, n_frac, **cfg)
+        if n_word % 2:
+            x.resize(signed=True, n_word=n_word)
+        else:
+            x.resize(dtype='fxp-s%d/%d' % (n_word, n_frac))
+        assert (bool(x.signed), x.n_word, x.n_frac) == (True, n_word, n_frac)
     if route == 'call':
         r = x(obj)
         assert r is x
